@@ -592,3 +592,61 @@ Proof.
   destruct (seg_from_head (advance (advance ctx0 p (gcb p)) c (gcb c)) (gcb c) c rest) as (cl & cs & E).
   rewrite E. exists cl, cs. reflexivity.
 Qed.
+
+(** ** no boundary: the two code points share a cluster *)
+Lemma last_default {A} (l : list A) d d' : l <> [] -> last l d = last l d'.
+Proof.
+  induction l as [|x l IH]; [congruence|]. intros _. destruct l as [|y l]; [reflexivity|].
+  cbn [last] in *. apply IH. discriminate.
+Qed.
+
+Lemma seg_from_nobreak r1 : forall x ka a b r2,
+  is_break (fst (run_from x ka r1)) (snd (run_from x ka r1)) (gcb b) = false ->
+  exists cl l1 l2, In cl (seg_from x ka a (r1 ++ b :: r2)) /\ cl = l1 ++ last (a :: r1) a :: b :: l2.
+Proof.
+  induction r1 as [|c r1 IH]; intros x ka a b r2 H.
+  - cbn [run_from fst snd] in H. cbn [app seg_from]. rewrite H.
+    destruct (seg_from_head (advance x b (gcb b)) (gcb b) b r2) as (c & cs & E). rewrite E.
+    exists (a :: b :: c), [], c. split; [left; reflexivity|reflexivity].
+  - cbn [run_from] in H. cbn [app seg_from].
+    destruct (IH _ _ c b r2 H) as (cl & l1 & l2 & Hin & Hcl).
+    assert (Hl : last (a :: c :: r1) a = last (c :: r1) c).
+    { change (last (a :: c :: r1) a) with (last (c :: r1) a). apply last_default. discriminate. }
+    rewrite Hl.
+    destruct (is_break x ka (gcb c)).
+    + exists cl, l1, l2. split; [right; exact Hin|exact Hcl].
+    + destruct (seg_from (advance x c (gcb c)) (gcb c) c (r1 ++ b :: r2)) as [|h t]; [contradiction|].
+      cbn [glue]. destruct Hin as [->|Hin].
+      * exists (a :: cl), (a :: l1), l2. split; [left; reflexivity|]. rewrite Hcl. reflexivity.
+      * exists cl, l1, l2. split; [right; exact Hin|exact Hcl].
+Qed.
+
+Lemma segment_nobreak_l u a b v :
+  break_after (u ++ [a]) b = false ->
+  exists cl l1 l2, In cl (segment ((u ++ [a]) ++ b :: v)) /\ cl = l1 ++ a :: b :: l2.
+Proof.
+  intros H. unfold break_after in H. destruct u as [|a0 r].
+  - cbn [app state_of] in H. cbn [app segment].
+    exact (seg_from_nobreak [] _ _ a b v H).
+  - cbn [app state_of] in H. cbn [app segment].
+    destruct (seg_from_nobreak (r ++ [a]) _ _ a0 b v H) as (cl & l1 & l2 & Hin & Hcl).
+    exists cl, l1, l2. split; [exact Hin|]. rewrite Hcl. f_equal. f_equal.
+    change (a0 :: r ++ [a]) with ((a0 :: r) ++ [a]). apply last_last.
+Qed.
+
+(** ... so if one of them is whitespace and the other is not, the text has a mixed cluster *)
+Lemma no_mixedb_nobreak_l u a b v :
+  break_after (u ++ [a]) b = false -> is_ws a = negb (is_ws b) ->
+  no_mixedb ((u ++ [a]) ++ b :: v) = false.
+Proof.
+  intros H Hw. destruct (segment_nobreak_l u a b v H) as (cl & l1 & l2 & Hin & Hcl).
+  unfold no_mixedb. destruct (forallb cl_nomixed (segment ((u ++ [a]) ++ b :: v))) eqn:E; [|reflexivity].
+  rewrite forallb_forall in E. specialize (E cl Hin). unfold cl_nomixed in E. subst cl.
+  rewrite !forallb_app in E. cbn [forallb] in E. rewrite Hw in E.
+  destruct (is_ws b); cbn [negb] in E; rewrite ?andb_false_r, ?andb_true_r in E; cbn [andb orb] in E;
+    rewrite ?andb_false_r in E; discriminate E.
+Qed.
+
+Lemma pair_nobreak x ka kb :
+  check_pair ka kb = PR_NotBreak \/ check_pair ka kb = PR_Extended -> is_break x ka kb = false.
+Proof. unfold is_break. intros [-> | ->]; reflexivity. Qed.
